@@ -21,6 +21,7 @@ def stdClass (env : Env) (t : T) (op : Op) : String :=
      | .moveP _ _ => "S8_move_links"
      | .paths _ | .dirs _ | .files _ | .allPaths _ | .allDirs _ | .allFiles _ => "S7_listing_links"
      | .chown _ _ _ | .chownB _ _ => "S16_chown_follows_link"
+     | .chmod _ _ | .chmodB _ _ => "S11_chmod"
      | _ => "opOk")
   else if !(CoveredS op) then "uncovered"
   else "-"
